@@ -28,6 +28,7 @@ class Engine:
         self.nq = 0; self.tq = 0.0; self.steps = 0; self.npaths = 0
         self.gids = {}; self.called = set(); self.tiids = {}; self._ce = {}
         self.soft_ub = True; self.ub = []            # UB findings recorded (what, model) when soft
+        self.ub_x = []                               # per UB finding: the path's harness dictionary (st.x) at that moment
         self.max_steps = 2_000_000; self.max_paths = 100000
         self.check_poison = True
         self.ptr_order = []                          # cross-object pointer ordering comparisons seen
@@ -91,7 +92,7 @@ class Engine:
         ok, m = self.sat(st, z3.Not(cond))
         if not ok: return
         if self.soft_ub and kind in ('ub-overflow', 'ub-shift', 'ub-abs'):
-            self.ub.append((kind, what, m, list(st.pc)))
+            self.ub.append((kind, what, m, list(st.pc))); self.ub_x.append(dict(st.x))
             ok2, _ = self.sat(st, cond)
             if not ok2: raise Violation(kind, what + " (on every input of the path)", m)
             self.assume(st, cond); return
